@@ -613,6 +613,8 @@ class _Frame:
                 if isinstance(b, Fraction) and b.denominator != 1:
                     if b == Q(1, 2):
                         return MQ.sqrt(a) if isinstance(a, (int, Fraction, MQ)) else a**b
+                    if isinstance(a, Poly) or getattr(type(a), "_xeval_open", False):
+                        return a**b
                     raise self.bad(f"non-integer power {b}", n)
                 if isinstance(a, Fraction) and isinstance(b, Fraction):
                     return a ** int(b)
